@@ -5,9 +5,11 @@
 // (own / foreign / public / unregistered client, every credential kind, current /
 // rotated-away / expired / unknown tokens, thirteen kinds of scope lists, refresh
 // support enabled and disabled at the provider, the refresh grant removed from a
-// client's registration mid-history) are executed against a fresh world on both
-// routers and judged, request by request, by a sequential reference model written
-// from the property statement and by the journal of the controlled storage.
+// client's registration mid-history, faults injected at single storage calls of a
+// request, a second request with the same token forced between a request's look-up
+// and its rotation call) are executed against a fresh world on both routers and
+// judged, request by request, by a sequential reference model written from the
+// property statement and by the journal of the controlled storage.
 package main
 
 import (
@@ -506,17 +508,47 @@ func (h *hist) refresh() {
 	}
 	hreq := w.NewRequest("POST", path, body)
 	hook(hreq)
+	// --- trouble at the storage boundary while the request is served: a fault at one point, or a second request
+	// with the same token served completely between this request's look-up and its rotation call ---
+	dist := h.drawDisturbance(follow != nil || calm(), t)
+	var rv *rival
+	st := h.w.Store
+	switch dist.kind {
+	case "fault-at-call", "fault-at-method":
+		st.Arm(dist.plan)
+	case "concurrent-refresh":
+		st.SetGate(func(method string, args ...string) {
+			if method != "CreateAccessAndRefreshTokens" || len(args) == 0 || args[0] != t.s {
+				return
+			}
+			st.SetGate(nil) // one shot: the rival's own rotation passes
+			rv = h.serveRival(t, dist.rivalRouter)
+		})
+	}
 	resp := w.Do(h.router, hreq)
+	st.SetGate(nil)
+	st.Arm(nil)
 	journal := h.w.Store.JournalSince(resp.SeqStart)
+	if rv != nil {
+		// what the storage saw of the rival request is not part of this request
+		journal = slices.DeleteFunc(journal, func(e vstore.Entry) bool { return e.Seq > rv.seqStart && e.Seq <= rv.seqEnd })
+	}
 	h.run.Eval()
+	if h.dead {
+		return // the rival request was a violation of its own
+	}
 
 	lit := map[string]string{"method": "POST", "query": query.Encode(), "body": body.Encode(), "placement": pl.String(), "auth": cr.auth.Kind, "auth_id": cr.auth.ID, "auth_secret": cr.auth.Secret, "refresh_enabled_at_provider": fmt.Sprint(enabled)}
 	if cr.auth.Assertion != "" {
 		lit["auth_assertion"] = cr.auth.Assertion
 	}
 	var jl []string
-	var creates, createErrs []vstore.Entry
+	var creates, createErrs, faults []vstore.Entry
 	for _, e := range journal {
+		if e.Fault {
+			faults = append(faults, e)
+			jl = append(jl, fmt.Sprintf("INJECTED FAULT at %s(%q, %q): %s", e.Method, e.A, e.B, e.Err))
+		}
 		if strings.HasPrefix(e.Method, "Create") {
 			jl = append(jl, fmt.Sprintf("%s(a=%q, current=%q, scopes=%q) -> %q err=%q", e.Method, e.A, e.B, e.C, e.Ret, e.Err))
 			if e.Err == "" {
@@ -533,6 +565,12 @@ func (h *hist) refresh() {
 		rel = "foreign"
 	}
 	detail := fmt.Sprintf("token=%s(chain %d pos %d of %s) presenter=%s(%s) cred=%s scope=%s granted=%v", tokKind, ref.ch.id, ref.pos, owner, presenter, rel, cr.kind, scopeKind, ref.granted)
+	if dist.kind != "none" {
+		detail += " storage=" + dist.String()
+		if rv != nil {
+			detail += " (the preceding log entry was served while this request was parked at the entrance of its CreateAccessAndRefreshTokens call)"
+		}
+	}
 	h.log = append(h.log, opLog{Op: "refresh", Request: lit, Detail: detail, Result: resp.Brief(), Journal: jl})
 	if h.panicked(resp) {
 		return
@@ -545,16 +583,39 @@ func (h *hist) refresh() {
 	h.run.Count("placement_scope", pl.sc)
 	h.run.Count("placement_credentials", pl.cred)
 	h.run.Count("presenter", presenter+"/"+rel)
+	h.run.Count("disturbance", dist.kind)
+	faultAt := ""
+	if len(faults) > 0 {
+		faultAt = faults[0].Method
+		h.run.Count("fault_fired_at", faultAt+"/"+faultKindNames[dist.plan.Kind])
+	} else if dist.plan != nil {
+		h.run.Count("fault_fired_at", "not-reached")
+	}
+	if dist.kind == "concurrent-refresh" {
+		switch {
+		case rv == nil:
+			h.run.Count("concurrent_refresh", "rotation-call-not-reached")
+		case rv.success:
+			h.run.Count("concurrent_refresh", "rival-served-first:success")
+		default:
+			h.run.Count("concurrent_refresh", "rival-served-first:refused")
+		}
+	}
 	h.run.CountN("journal_create_calls", h.rn, int64(len(creates)))
 
 	// ---------- reference model ----------
-	clean := t != nil && !t.failed && !t.ch.suspect // no refused attempt touched the token (or a replay its chain) before
+	// the rival request was served completely before this request's rotation call: in the order in which the
+	// storage was asked to rotate, this request presents a token that has been rotated away
+	raceLost := rv != nil && rv.success
+	clean := t != nil && !t.failed && !t.ch.suspect && len(faults) == 0 && rv == nil // no refused attempt touched the token (or a replay its chain) before, no trouble at the storage
 	var refuse []string
 	if !enabled {
 		refuse = append(refuse, "grant-disabled")
 	}
 	if t == nil {
 		refuse = append(refuse, "token-unknown")
+	} else if raceLost {
+		refuse = append(refuse, "token-rotated-by-concurrent-request")
 	} else if !t.live {
 		refuse = append(refuse, "token-"+t.dead)
 	}
@@ -580,6 +641,21 @@ func (h *hist) refresh() {
 	if !subset(requested, ref.granted) {
 		refuse = append(refuse, "scope-not-granted")
 	}
+	// What the statement's conditions rest on are the storage's answers: who the client is and what it is registered
+	// for, whether its credential is good, whom the token was issued to with which scopes, and the new refresh token of
+	// the rotation. A request during which the storage failed to give one of these answers cannot satisfy
+	// "succeeds only for ... / only if ... / carries the storage's new refresh token".
+	stmtReasons := len(refuse)
+	for _, e := range faults {
+		if decisiveCalls[e.Method] && e.Method != "CreateAccessAndRefreshTokens" && !slices.Contains(refuse, "storage-failed:"+e.Method) {
+			refuse = append(refuse, "storage-failed:"+e.Method)
+		}
+	}
+	rotated := slices.ContainsFunc(creates, func(e vstore.Entry) bool { return e.Method == "CreateAccessAndRefreshTokens" && e.B == presented })
+	if !rotated && slices.ContainsFunc(createErrs, func(e vstore.Entry) bool { return e.Method == "CreateAccessAndRefreshTokens" }) {
+		// the storage was asked to rotate and refused (injected fault, or its own "token is dead" after a lost race)
+		refuse = append(refuse, "rotation-failed-in-storage")
+	}
 	refuse = orderReasons(refuse)
 
 	toks := opdrv.DecodeTokens(resp)
@@ -592,13 +668,21 @@ func (h *hist) refresh() {
 	if pos > 3 {
 		pos = 3
 	}
-	h.run.Distinct(fmt.Sprintf("%s|%s/%v|%v|%v|%s|%s|%s|%s|%s|%s|%s|%d|%v", h.rn, pl.gt, pl.restBody(), h.alias, enabled, ref.ch.via, h.cl[owner].Auth, rel, pauth, cr.kind, tokKind, scopeKind, pos, h.dereg[owner]))
+	trouble := dist.kind
+	if faultAt != "" {
+		trouble = "fault:" + faultAt
+	} else if rv != nil {
+		trouble = fmt.Sprintf("concurrent-refresh:rival-success=%v", rv.success)
+	} else if dist.kind != "none" {
+		trouble = "not-reached"
+	}
+	h.run.Distinct(fmt.Sprintf("%s|%s/%v|%v|%v|%s|%s|%s|%s|%s|%s|%s|%d|%v|%s", h.rn, pl.gt, pl.restBody(), h.alias, enabled, ref.ch.via, h.cl[owner].Auth, rel, pauth, cr.kind, tokKind, scopeKind, pos, h.dereg[owner], trouble))
 
 	if success && len(creates) > 0 && !slices.ContainsFunc(creates, func(e vstore.Entry) bool { return strings.HasPrefix(e.A, "refresh") }) {
 		// conflicting grant_type members: the request was served by another grant (judged by what the storage was
 		// asked to create) - not a refresh, nothing for this property to judge; the presented token must still be untouched
 		h.run.Count("outcome", "served_by_other_grant:"+pl.gt+":"+creates[0].A)
-		if t != nil && liveBefore && !h.w.Store.RefreshLive(t.s) {
+		if t != nil && liveBefore && !raceLost && !h.w.Store.RefreshLive(t.s) {
 			h.violated("rotated-by-other-grant", "a request served by another grant ("+creates[0].A+") consumed the refresh token it carried")
 		}
 		return
@@ -606,18 +690,30 @@ func (h *hist) refresh() {
 	if !success {
 		// nothing may have been issued
 		if len(creates) > 0 {
-			if resp.OAuthError() == "invalid_scope" {
+			// The one legal shape: nothing in the statement refuses the request, the storage rotated, and a LATER
+			// storage call failed by injection (signing key, claims): the tokens exist in the storage and reach nobody.
+			// The statement is silent about that -> grey. A creation AFTER the failed call, or in a request the
+			// statement refuses, stays a violation.
+			lastCreate := creates[len(creates)-1].Seq
+			if len(faults) > 0 && stmtReasons == 0 && lastCreate < faults[0].Seq && len(creates) == 1 && rotated {
+				h.run.Count("outcome", "grey_refused_after_rotation:fault-at:"+faultAt)
+				h.run.Observed("fault-after-rotation:refused:" + h.rn)
+				if t != nil && t.live && !h.w.Store.RefreshLive(t.s) {
+					t.live, t.dead = false, "rotated" // the storage consumed it; its successor was handed to nobody
+				}
+			} else if resp.OAuthError() == "invalid_scope" {
 				h.violated("issued-on-invalid_scope", "the request was answered invalid_scope but the storage journal shows a successful "+creates[0].Method)
+				return
 			} else {
 				h.violated("issued-on-refusal", "the request was refused ("+resp.OAuthError()+") but the storage journal shows a successful "+creates[0].Method)
+				return
 			}
-			return
 		}
 		if len(createErrs) > 0 {
 			h.run.Count("outcome", "refused_after_failed_create_call")
 		}
 		h.run.Count("refusal_status", fmt.Sprint(resp.Status))
-		if t != nil && liveBefore && !h.w.Store.RefreshLive(t.s) {
+		if t != nil && liveBefore && !raceLost && t.live && !h.w.Store.RefreshLive(t.s) {
 			h.run.Count("outcome", "grey_token_burned_by_refused_request")
 		}
 		// a refused request must not have widened the grant the storage holds for the presented token
@@ -670,7 +766,22 @@ func (h *hist) refresh() {
 				h.sample("regrow-refused")
 			}
 		}
+		if stmtReasons == 0 && cr.plain && presenter == owner && plainScopeKinds[scopeKind] {
+			// a request that would otherwise have to be served
+			h.run.Count("outcome", "refused_for_storage_trouble:"+strings.Join(refuse, "+")+" -> "+resp.OAuthError())
+		}
 		switch refuse[0] {
+		case "token-rotated-by-concurrent-request":
+			h.run.Observed("concurrent-refresh:loser-refused:" + h.rn)
+			h.sample("concurrent-refresh:second-rotation-refused")
+		case "rotation-failed-in-storage":
+			// the look-up succeeded, the rotation call itself failed
+			h.run.Observed("fault-at-rotation:refused:" + h.rn)
+			h.sample("fault-at-rotation")
+		case "storage-failed:TokenRequestByRefreshToken":
+			h.run.Observed("fault-at-lookup:refused:" + h.rn)
+		case "storage-failed:GetClientByClientID", "storage-failed:AuthorizeClientIDSecret", "storage-failed:GetKeyByIDAndClientID":
+			h.run.Observed("fault-at-client-authentication:refused:" + h.rn)
 		case "grant-disabled":
 			h.run.Observed("refused-disabled:" + h.rn)
 			h.sample("refresh-disabled")
@@ -700,6 +811,14 @@ func (h *hist) refresh() {
 		t.failed = true
 		must := cr.plain && presenter == owner && plainScopeKinds[scopeKind] && clean && pl.allBody()
 		if !must {
+			if len(faults) > 0 {
+				h.run.Count("outcome", "grey_refused:storage-fault-at:"+faultAt)
+				return
+			}
+			if rv != nil {
+				h.run.Count("outcome", "grey_refused:after-refused-concurrent-request")
+				return
+			}
 			if cr.plain && presenter == owner && plainScopeKinds[scopeKind] && clean {
 				h.run.Count("outcome", "grey_refused:placement-grant_type-"+pl.gt)
 				return
@@ -711,6 +830,13 @@ func (h *hist) refresh() {
 		return
 	}
 	h.run.Count("outcome", "success")
+	if len(faults) > 0 {
+		// the failed call is none the statement's conditions rest on (those are refusal reasons above)
+		h.run.Count("outcome", "grey_success_although_storage_call_failed:"+faultAt)
+	}
+	if rv != nil {
+		h.run.Count("outcome", "success_after_refused_concurrent_request")
+	}
 	h.run.Count("success_placement_grant_type", pl.gt)
 	if pl.gt == "query" && cr.plain && presenter == owner {
 		h.run.Observed("grant_type-in-query-only:success:" + h.rn)
@@ -733,41 +859,198 @@ func (h *hist) refresh() {
 		h.run.Observed("success-private_key_jwt:" + h.rn)
 	}
 
+	nt, newRec, atRec, ok := h.acceptSuccess(t, presented, toks, creates, jl)
+	if !ok {
+		return
+	}
+	if len(requested) > 0 && wellFormed && !subset(newRec.Scopes, requested) {
+		h.run.Count("outcome", "grey_issued_wider_than_requested")
+	}
+	if nt.pos >= 4 {
+		h.run.Observed("chain>=4:" + h.rn)
+		h.sample("chain")
+	}
+	if h.cl[owner].Auth == oidc.AuthMethodNone {
+		h.sample("public-client")
+	}
+	if scopeKind == "subset" {
+		h.sample("narrowing")
+	}
+	// ---- observation through the library's own endpoints (sampled) ----
+	if r.IntN(3) == 0 {
+		h.observe(nt, atRec)
+	}
+}
+
+// ---------- trouble at the storage boundary ----------
+
+// storageCalls are the op.Storage methods a refresh request can reach (fault-at-method draws from them; fault-at-call
+// numbers the calls of the request and needs no list).
+var storageCalls = []string{
+	"GetClientByClientID", "AuthorizeClientIDSecret", "GetKeyByIDAndClientID", "TokenRequestByRefreshToken",
+	"CreateAccessAndRefreshTokens", "CreateAccessAndRefreshTokens", "CreateAccessAndRefreshTokens", "CreateAccessToken",
+	"SigningKey", "SignatureAlgorithms", "SetUserinfoFromScopes", "GetPrivateClaimsFromScopes",
+}
+
+// decisiveCalls give the answers the statement's conditions rest on: the client and its registration, its
+// credential (secret / key of the assertion), the token's owner and granted scopes, the rotation.
+var decisiveCalls = map[string]bool{
+	"GetClientByClientID": true, "AuthorizeClientIDSecret": true, "GetKeyByIDAndClientID": true,
+	"TokenRequestByRefreshToken": true, "CreateAccessAndRefreshTokens": true,
+}
+
+var faultKindNames = map[vstore.FaultKind]string{vstore.FaultPlain: "plain-error", vstore.FaultDeadline: "deadline-exceeded", vstore.FaultOIDCServerError: "oidc-server_error"}
+
+type disturbance struct {
+	kind        string // none | fault-at-call | fault-at-method | concurrent-refresh
+	plan        *vstore.FaultPlan
+	rivalRouter int
+}
+
+func (d disturbance) String() string {
+	switch d.kind {
+	case "fault-at-call":
+		return fmt.Sprintf("fault(%s) at storage call #%d of the request", faultKindNames[d.plan.Kind], d.plan.At)
+	case "fault-at-method":
+		return fmt.Sprintf("fault(%s) at every %s call of the request", faultKindNames[d.plan.Kind], d.plan.Method)
+	case "concurrent-refresh":
+		return "a second plain request of the owner with the same token (router " + opdrv.RouterNames[d.rivalRouter] + ") is served completely when this request enters CreateAccessAndRefreshTokens"
+	}
+	return d.kind
+}
+
+func (h *hist) drawDisturbance(quiet bool, t *tok) disturbance {
+	d := disturbance{kind: "none"}
+	if quiet {
+		return d
+	}
+	r := h.r
+	switch c := r.IntN(100); {
+	case c < 6:
+		d.kind, d.plan = "fault-at-call", &vstore.FaultPlan{At: 1 + r.IntN(9), Kind: vstore.FaultKind(r.IntN(int(vstore.NumFaultKinds)))}
+	case c < 13:
+		d.kind, d.plan = "fault-at-method", &vstore.FaultPlan{Method: pick(r, storageCalls...), Kind: vstore.FaultKind(r.IntN(int(vstore.NumFaultKinds)))}
+	case c < 18:
+		if t != nil && t.live {
+			d.kind, d.rivalRouter = "concurrent-refresh", r.IntN(2)
+		}
+	}
+	return d
+}
+
+// rival is a second refresh request with the same token, served completely while the first one is parked at the
+// entrance of its rotation call.
+type rival struct {
+	seqStart, seqEnd int64
+	success          bool
+}
+
+// serveRival runs on the handler's goroutine of the parked request (vstore gate). The request is a plain, all-body
+// request of the token's own client without a scope list; at this point the token is live in the model and in the
+// storage (the parked request's look-up succeeded), so the sequential model judges it like any other request.
+func (h *hist) serveRival(t *tok, router int) *rival {
+	ch := t.ch
+	oc := h.cl[ch.client]
+	rn := opdrv.RouterNames[router]
+	form := url.Values{"grant_type": {"refresh_token"}, "refresh_token": {t.s}}
+	auth := h.authFor(oc)
+	resp := h.w.Token(router, form, auth)
+	rv := &rival{seqStart: resp.SeqStart, seqEnd: resp.SeqEnd}
+	h.run.Eval()
+	var jl []string
+	var creates []vstore.Entry
+	for _, e := range h.w.Store.JournalSince(resp.SeqStart) {
+		if e.Seq > resp.SeqEnd {
+			break
+		}
+		if strings.HasPrefix(e.Method, "Create") {
+			jl = append(jl, fmt.Sprintf("%s(a=%q, current=%q, scopes=%q) -> %q err=%q", e.Method, e.A, e.B, e.C, e.Ret, e.Err))
+			if e.Err == "" {
+				creates = append(creates, e)
+			}
+		} else if e.Method == "TokenRequestByRefreshToken" {
+			jl = append(jl, fmt.Sprintf("%s(%q) err=%q", e.Method, e.A, e.Err))
+		}
+	}
+	lit := map[string]string{"method": "POST", "router": rn, "body": form.Encode(), "auth": auth.Kind, "auth_id": auth.ID, "auth_secret": auth.Secret}
+	if auth.Assertion != "" {
+		lit["auth_assertion"] = auth.Assertion
+	}
+	h.log = append(h.log, opLog{Op: "refresh(concurrent)", Request: lit, Detail: fmt.Sprintf("token=current(chain %d pos %d of %s) presenter=%s(own) cred=ok scope=absent granted=%v; served on router %s while the NEXT log entry's request is parked at the entrance of its CreateAccessAndRefreshTokens call", ch.id, t.pos, ch.client, ch.client, t.granted, rn), Result: resp.Brief(), Journal: jl})
+	if h.panicked(resp) {
+		return rv
+	}
+	var refuse []string
+	if h.allOff {
+		refuse = append(refuse, "grant-disabled")
+	}
+	if !hasGrant(oc, oidc.GrantTypeRefreshToken) {
+		refuse = append(refuse, "client-not-registered-for-refresh")
+	}
+	toks := opdrv.DecodeTokens(resp)
+	rv.success = toks != nil && (toks.Access != "" || toks.ID != "" || toks.Refresh != "")
+	if !rv.success {
+		if len(creates) > 0 {
+			h.violated("issued-on-refusal", "the request was refused ("+resp.OAuthError()+") but the storage journal shows a successful "+creates[0].Method)
+			return rv
+		}
+		if len(refuse) == 0 && !t.failed && !ch.suspect {
+			h.violated("must-succeed", "a plainly conforming refresh request of the token's own client (served while another request with the same token had only looked the token up) was refused: "+resp.Brief())
+			return rv
+		}
+		t.failed = true
+		return rv
+	}
+	if len(refuse) > 0 {
+		h.violated("success-despite:"+refuse[0], "the token endpoint issued tokens although the statement demands refusal: "+strings.Join(refuse, "+"))
+		return rv
+	}
+	if _, _, _, ok := h.acceptSuccess(t, t.s, toks, creates, jl); ok {
+		h.run.Observed("concurrent-refresh:rival-success:" + h.rn)
+	}
+	return rv
+}
+
+// acceptSuccess judges a successful refresh response against the statement (rotation hand-over, the storage's new
+// refresh token, binding to the original grant, scope never grows) and, when everything holds, advances the model:
+// t is rotated away, the new token joins the chain. ok=false: a violation (or harness bug) was reported.
+func (h *hist) acceptSuccess(t *tok, presented string, toks *opdrv.Tokens, creates []vstore.Entry, jl []string) (nt *tok, newRec vstore.Refresh, atRec vstore.Token, ok bool) {
 	// ---- rotation hand-over: exactly one CreateAccessAndRefreshTokens(current = presented) ----
 	if len(creates) != 1 || creates[0].Method != "CreateAccessAndRefreshTokens" || creates[0].B != presented {
 		h.violated("rotation-not-handed-over", fmt.Sprintf("success, but the journal does not show exactly one CreateAccessAndRefreshTokens(currentRefreshToken = presented token): %v", jl))
-		return
+		return nil, newRec, atRec, false
 	}
 	ret := strings.SplitN(creates[0].Ret, "|", 2)
 	if len(ret) != 2 || toks.Refresh != ret[1] {
 		h.violated("refresh-token-not-from-storage", fmt.Sprintf("the response's refresh_token %q is not the one the storage minted (%q)", toks.Refresh, creates[0].Ret))
-		return
+		return nil, newRec, atRec, false
 	}
 	if h.w.TokenID(toks.Access) != ret[0] {
 		h.violated("access-token-not-from-storage", fmt.Sprintf("the response's access_token resolves to %q, the storage minted %q", h.w.TokenID(toks.Access), ret[0]))
-		return
+		return nil, newRec, atRec, false
 	}
 	ch := t.ch
 	wantA := "refresh|" + ch.client + "|" + ch.sub
 	if creates[0].A != wantA {
 		h.violated("token-request-binding", fmt.Sprintf("the token request handed to the storage is %q, the presented token belongs to %q", creates[0].A, wantA))
-		return
+		return nil, newRec, atRec, false
 	}
-	newRec, ok1 := h.w.Store.RefreshRecord(ret[1])
-	atRec, ok2 := h.w.Store.TokenRecord(ret[0])
+	var ok1, ok2 bool
+	newRec, ok1 = h.w.Store.RefreshRecord(ret[1])
+	atRec, ok2 = h.w.Store.TokenRecord(ret[0])
 	if !ok1 || !ok2 {
 		h.run.HarnessBug("journaled tokens not found in the store")
 		h.dead = true
-		return
+		return nil, newRec, atRec, false
 	}
 	// ---- the new tokens keep subject, audience, authentication time (and client) ----
 	if f := bindingDiff(ch, newRec.ClientID, newRec.Subject, newRec.Audience, newRec.AuthTime.Unix(), 0); f != "" {
 		h.violated("refresh-token-binding:"+f, fmt.Sprintf("new refresh token: client=%s sub=%s aud=%v auth_time=%d; original grant: client=%s sub=%s aud=%v auth_time=%d", newRec.ClientID, newRec.Subject, newRec.Audience, newRec.AuthTime.Unix(), ch.client, ch.sub, ch.aud, ch.authTime.Unix()))
-		return
+		return nil, newRec, atRec, false
 	}
 	if f := bindingDiff(ch, atRec.ClientID, atRec.Subject, atRec.Audience, atRec.AuthTime.Unix(), 0); f != "" {
 		h.violated("access-token-binding:"+f, fmt.Sprintf("new access token: client=%s sub=%s aud=%v auth_time=%d; original grant: client=%s sub=%s aud=%v auth_time=%d", atRec.ClientID, atRec.Subject, atRec.Audience, atRec.AuthTime.Unix(), ch.client, ch.sub, ch.aud, ch.authTime.Unix()))
-		return
+		return nil, newRec, atRec, false
 	}
 	if toks.ID == "" {
 		h.run.Count("outcome", "grey_no_id_token")
@@ -775,7 +1058,7 @@ func (h *hist) refresh() {
 		idc, err := h.w.VerifyWithOPKey(toks.ID)
 		if err != nil {
 			h.violated("id-token-unverifiable", "the id_token of the refresh response does not verify under the provider key: "+err.Error())
-			return
+			return nil, newRec, atRec, false
 		}
 		azp, _ := idc["azp"].(string)
 		sub, _ := idc["sub"].(string)
@@ -794,7 +1077,7 @@ func (h *hist) refresh() {
 		ac, err := h.w.VerifyWithOPKey(toks.Access)
 		if err != nil {
 			h.violated("jwt-access-token-unverifiable", "the JWT access token of the refresh response does not verify under the provider key: "+err.Error())
-			return
+			return nil, newRec, atRec, false
 		}
 		sub, _ := ac["sub"].(string)
 		cid, _ := ac["client_id"].(string)
@@ -804,7 +1087,7 @@ func (h *hist) refresh() {
 		}
 		if f := bindingDiff(ch, cid, sub, aud, ch.authTime.Unix(), 0); f != "" {
 			h.violated("jwt-access-token-binding:"+f, fmt.Sprintf("new JWT access token: client_id=%v sub=%v aud=%v; original grant: client=%s sub=%s aud=%v", ac["client_id"], ac["sub"], ac["aud"], ch.client, ch.sub, ch.aud))
-			return
+			return nil, newRec, atRec, false
 		}
 		h.run.Count("checked", "jwt_access_token_claims")
 	}
@@ -818,11 +1101,8 @@ func (h *hist) refresh() {
 		got := slices.DeleteFunc(slices.Clone(x.got), func(s string) bool { return s == "" })
 		if !subset(got, t.granted) || !subset(got, ch.origin) {
 			h.violated("scope-grew:"+x.what, fmt.Sprintf("scope of the new %s is %v; the presented token was granted %v (original grant %v)", x.what, x.got, t.granted, ch.origin))
-			return
+			return nil, newRec, atRec, false
 		}
-	}
-	if len(requested) > 0 && wellFormed && !subset(newRec.Scopes, requested) {
-		h.run.Count("outcome", "grey_issued_wider_than_requested")
 	}
 	if len(sortedSet(newRec.Scopes)) < len(sortedSet(t.granted)) {
 		ch.narrowed++
@@ -833,24 +1113,11 @@ func (h *hist) refresh() {
 	}
 	// ---- model update ----
 	t.live, t.dead = false, "rotated"
-	nt := &tok{s: toks.Refresh, ch: ch, pos: t.pos + 1, granted: noEmpty(newRec.Scopes), live: true, access: toks.Access}
+	nt = &tok{s: toks.Refresh, ch: ch, pos: t.pos + 1, granted: noEmpty(newRec.Scopes), live: true, access: toks.Access}
 	ch.toks = append(ch.toks, nt)
 	h.toks = append(h.toks, nt)
 	h.last = ch
-	if nt.pos >= 4 {
-		h.run.Observed("chain>=4:" + h.rn)
-		h.sample("chain")
-	}
-	if h.cl[owner].Auth == oidc.AuthMethodNone {
-		h.sample("public-client")
-	}
-	if scopeKind == "subset" {
-		h.sample("narrowing")
-	}
-	// ---- observation through the library's own endpoints (sampled) ----
-	if r.IntN(3) == 0 {
-		h.observe(nt, atRec)
-	}
+	return nt, newRec, atRec, true
 }
 
 func greyWhy(c cred, own bool, scopeKind string, t *tok) string {
@@ -989,7 +1256,7 @@ func runHistory(run *ev.Run, caseIdx int, router int) {
 
 func main() {
 	run := ev.Start("C07", "exploration")
-	run.SetRule("random histories (8-31 ops) on a fresh world per history and router: original grants (code exchange / device flow with offline_access, 6 scope sets, 2 users, per-chain audience and auth_time) for clients {web, web2(JWT access tokens) basic; post; native public+PKCE; jwt private_key_jwt; dev basic device; devpub public device(JWT)}, then refresh requests presenter {owner, other registered client, svc without the grant, unknown client} x credential {ok, wrong secret/key, none, other method, superfluous secret, valid credential + owner's client_id} x token {current, rotated-away, expired, unknown: garbage/near-miss/access token/missing/suffix} x scope list {absent, empty, equal, permuted, subset, subset with duplicate, superset head/tail, regrow of a narrowed-away scope, disjoint, case variant, affix variant, malformed spacing} x storage {the RefreshTokenRequest is a copy; it aliases the stored token (vstore.AliasRefresh, 1/3 of histories)} x provider refresh support {on, off (same storage), off for the whole history} x parameter placement {grant_type, refresh_token, scope, client credentials each in the form body, in the URL query only, or in both; grant_type also conflicting: query says refresh_token while the body names authorization_code / client_credentials, and vice versa; 55% of requests are all-body} x follow-up {70% of scope-only refusals are followed by a plain request of the owner with the same token} x client re-registered without the refresh grant; every refresh request is one evaluation; distinct = distinct vectors (router, grant_type placement / all other parameters in the body, aliasing storage, enabled, grant kind, owner auth method, own/foreign, presenter auth method, credential kind, token kind, scope kind, chain position 0..3+, owner deregistered)")
+	run.SetRule("random histories (8-31 ops) on a fresh world per history and router: original grants (code exchange / device flow with offline_access, 6 scope sets, 2 users, per-chain audience and auth_time) for clients {web, web2(JWT access tokens) basic; post; native public+PKCE; jwt private_key_jwt; dev basic device; devpub public device(JWT)}, then refresh requests presenter {owner, other registered client, svc without the grant, unknown client} x credential {ok, wrong secret/key, none, other method, superfluous secret, valid credential + owner's client_id} x token {current, rotated-away, expired, unknown: garbage/near-miss/access token/missing/suffix} x scope list {absent, empty, equal, permuted, subset, subset with duplicate, superset head/tail, regrow of a narrowed-away scope, disjoint, case variant, affix variant, malformed spacing} x storage {the RefreshTokenRequest is a copy; it aliases the stored token (vstore.AliasRefresh, 1/3 of histories)} x provider refresh support {on, off (same storage), off for the whole history} x parameter placement {grant_type, refresh_token, scope, client credentials each in the form body, in the URL query only, or in both; grant_type also conflicting: query says refresh_token while the body names authorization_code / client_credentials, and vice versa; 55% of requests are all-body} x follow-up {70% of scope-only refusals are followed by a plain request of the owner with the same token} x client re-registered without the refresh grant x trouble at the storage boundary while the request is served {none 82%; an injected fault (plain error / wrapped context.DeadlineExceeded / oidc server_error) at the k-th storage call of the request, k in 1..9; the same at every call of one method out of GetClientByClientID, AuthorizeClientIDSecret, GetKeyByIDAndClientID, TokenRequestByRefreshToken, CreateAccessAndRefreshTokens(x3), CreateAccessToken, SigningKey, SignatureAlgorithms, SetUserinfoFromScopes, GetPrivateClaimsFromScopes; a forced interleaving through a gate at the entrance of the storage's CreateAccessAndRefreshTokens: a second, plain request of the owner with the same token is served completely (either router) between this request's look-up and its rotation call}; every refresh request (the rival of an interleaving included) is one evaluation; distinct = distinct vectors (router, grant_type placement / all other parameters in the body, aliasing storage, enabled, grant kind, owner auth method, own/foreign, presenter auth method, credential kind, token kind, scope kind, chain position 0..3+, owner deregistered, storage trouble: none / method the fault fired at / interleaving and its rival's outcome / not reached)")
 	run.Assume(
 		"vstore policy: refresh tokens rotate (CreateAccessAndRefreshTokens kills the presented token), TokenRequestByRefreshToken fails for unknown, rotated and expired tokens, and the new refresh token records the scopes of the token request it was created from — 'granted' in the chain condition is that record",
 		"after a refused request presenting a live token, later success for that token is grey (burning on failure would be legal); after a replay of a dead token of a chain, later success anywhere in the chain is grey (revoking the family would be legal)",
@@ -997,7 +1264,9 @@ func main() {
 		"a public client counts as identified when its client_id is named anywhere in the request",
 		"original grants are taken as the storage recorded them (their correctness is C04/C06/C16)",
 		"where a parameter travels (form body, URL query, both) never changes who may refresh: the refusal side of the model is placement-blind; success is demanded only for all-body requests; a request with conflicting grant_type members is judged by what was served (a success whose journal shows no refresh token request was served by another grant and is not judged)",
-		"in one third of the histories the storage hands out a RefreshTokenRequest that aliases the stored token (SetCurrentScopes writes through, as in the repository's example storage); after every refused request the scopes the storage holds for the presented token are compared with those before it: widened -> violation, only narrowed -> grey")
+		"in one third of the histories the storage hands out a RefreshTokenRequest that aliases the stored token (SetCurrentScopes writes through, as in the repository's example storage); after every refused request the scopes the storage holds for the presented token are compared with those before it: widened -> violation, only narrowed -> grey",
+		"storage trouble: the statement's conditions rest on the storage's answers (the client and its registration, the verdict on its credential, the token's owner and granted scopes, the new refresh token of the rotation); a request during which the storage failed to give one of them (injected fault at GetClientByClientID / AuthorizeClientIDSecret / GetKeyByIDAndClientID / TokenRequestByRefreshToken, or a CreateAccessAndRefreshTokens call that returned an error - injected, or the storage's own refusal after a lost race - without a successful rotation of the presented token) must not succeed and must create nothing; a failure of any other call (signing key, claims) is grey in both directions; a refused request whose one successful rotation PRECEDES the injected fault is grey (the tokens exist in the storage and reach nobody; the model marks the presented token consumed), a creation after the failed call is a violation",
+		"forced interleaving: the order in which the storage is asked to rotate is the order of the sequential model: the rival (served completely while the first request is parked) is judged as a request presenting a live token, the parked request as one presenting a token rotated away; if the rival is refused the parked request is judged as usual (success grey, after a failed attempt)")
 	n := run.N(4000, 40000)
 	if rc := run.ReplayCase(); rc >= 0 {
 		runHistory(run, int(rc), 0)
@@ -1006,7 +1275,8 @@ func main() {
 	}
 	var mand []string
 	for _, rn := range opdrv.RouterNames {
-		for _, m := range []string{"success", "success-public", "success-private_key_jwt", "refused-foreign-authenticated", "refused-unauthenticated", "refused-invalid_scope", "refused-regrow", "refused-replay", "refused-disabled", "refused-deregistered", "chain>=4", "narrowed-twice", "history-with-refresh-disabled", "scope-refused-then-success", "aliasing-storage:scope-refused-then-success", "grant_type-in-query-only:success", "grant_type-in-query-only:refused-deregistered"} {
+		for _, m := range []string{"success", "success-public", "success-private_key_jwt", "refused-foreign-authenticated", "refused-unauthenticated", "refused-invalid_scope", "refused-regrow", "refused-replay", "refused-disabled", "refused-deregistered", "chain>=4", "narrowed-twice", "history-with-refresh-disabled", "scope-refused-then-success", "aliasing-storage:scope-refused-then-success", "grant_type-in-query-only:success", "grant_type-in-query-only:refused-deregistered",
+			"fault-at-rotation:refused", "fault-at-lookup:refused", "fault-at-client-authentication:refused", "fault-after-rotation:refused", "concurrent-refresh:loser-refused", "concurrent-refresh:rival-success"} {
 			mand = append(mand, m+":"+rn)
 		}
 	}
